@@ -228,11 +228,17 @@ impl World {
     async fn send_and_wait_handled(&mut self, from: &str, bytes: &[u8]) -> Result<bool, String> {
         let h = rustrtc::verif::hash32(bytes);
         let me = self.addrs[from].to_string();
-        self.socks[from].send_to(bytes, self.agent_addr).await.map_err(|e| e.to_string())?;
-        self.n_sent += 1;
         let t0 = Instant::now();
+        // UDP may lose a datagram even on loopback (a loaded machine): the same bytes are sent again
+        // every few seconds - a retransmission is a legitimate STUN event and changes no expectation
+        let mut last_send: Option<Instant> = None;
         let mut spins = 0u32;
         loop {
+            if last_send.map(|t| t.elapsed() > Duration::from_secs(3)).unwrap_or(true) {
+                self.socks[from].send_to(bytes, self.agent_addr).await.map_err(|e| e.to_string())?;
+                self.n_sent += 1;
+                last_send = Some(Instant::now());
+            }
             for e in rustrtc::verif::take_events() {
                 if e["comp"] == "ice"
                     && (e["ev"] == "pkt_done" || e["ev"] == "mux_drop")
@@ -247,10 +253,10 @@ impl World {
                 }
             }
             if t0.elapsed() > PKT_DEADLINE {
-                return Err(format!("packet from {from} was not handled within {PKT_DEADLINE:?}"));
+                return Err(format!("packet from {from} was not handled within {PKT_DEADLINE:?} (state {:?})", self.agent.state()));
             }
             spins += 1;
-            if spins % 64 == 0 {
+            if spins % 16 == 0 {
                 tokio::time::sleep(Duration::from_millis(1)).await;
             } else {
                 tokio::task::yield_now().await;
